@@ -2,6 +2,8 @@ SPECIFICATION Spec
 CHECK_DEADLOCK FALSE
 INVARIANT BugAccepted
 CONSTANTS
+  MinN = 1
+  MinRules = 0
   MaxN = 2
   PoolSel = "tiny"
   Codes = {}
@@ -10,7 +12,7 @@ CONSTANTS
   LigLens = {1, 2}
   Kinds = {"cff"}
   CmapFormats = {"4"}
-  LigFirst = -1
+  LigFirst = 0
   TextSel = "none"
   Flags = FALSE
   Quiet = TRUE
